@@ -165,6 +165,33 @@ def evaluate(node, labels: dict):
     return v, t
 
 
+def flatten(node, labels: dict):
+    """-> (node', changed): every maximal operator subtree whose value is defined and whole is replaced by that value
+    written as a plain literal (a negative one as (0 - n)).  Whatever value an expression has, it is a function of the
+    values of its operands, so an implementation must give node and node' the same value wherever it gives both one -
+    also where this module declines to name the value (remainder with a negative operand, shift of a negative value)."""
+    k = node[0]
+    if k in ('num', 'lab'):
+        return node, False
+    try:
+        v, _ = evaluate(node, labels)
+        if v.denominator == 1:
+            n = int(v)
+            lit = ['num', n, 'dec'] if n >= 0 else ['par', ['bin', '-', ['num', 0, 'dec'], ['num', -n, 'dec']]]
+            return lit, True
+    except Undefined:
+        pass
+    if k in ('par', 'neg', 'lsb'):
+        x, c = flatten(node[1], labels)
+        return [k, x], c
+    if k == 'byte':
+        x, c = flatten(node[2], labels)
+        return ['byte', node[1], x], c
+    l, cl = flatten(node[2], labels)
+    r, cr = flatten(node[3], labels)
+    return ['bin', node[1], l, r], cl or cr
+
+
 def value_of(node, labels: dict) -> int:
     v, _ = evaluate(node, labels)
     n = v.numerator // v.denominator if v >= 0 else -((-v.numerator) // v.denominator)
